@@ -8,10 +8,11 @@ items, every number of finishing goroutines, every interleaving of their atomic 
 any number of start/stop cycles. Timeouts are a nondeterministic action; the statement's proviso ("as long as each
 returns within the stop timeout") is the hypothesis `tmo = 0`.
 
-The full-strength safety statement is FALSE on the code as written (two straggler races across phases, see the
-`…_REFUTED_…` theorems, both replayed on the implementation by the harness); the proved safety theorem is the
-`_partial` one with the excluded class (`g = 0`: a straggler of an earlier phase was in flight when `stop()` ran)
-as explicit decidable hypothesis.
+On the pinned tree the full-strength safety statement was FALSE (two straggler races across phases: a check parked
+between its counter reads and the CAS across a restart; the start routine's goroutine clearing `ctrlFuncRunning`
+after the stopper had set it). Both were first reproduced on the implementation by forced schedules, then repaired
+by two `fix:` commits; this file proves the full-strength statement about the model of the repaired code, and keeps
+the two former counterexample schedules as `example`s that the repaired protocol rejects.
 -/
 namespace PB.C05
 open PB.StopProto PB.Gen.StopProto
@@ -19,11 +20,12 @@ open PB.StopProto PB.Gen.StopProto
 /-- The model's stop sequence and check sequence are the ones written in the source (regenerated every run),
     and the status order used by `readyToStop` (`> StatusOffline`) is the source's. -/
 theorem gen_matches_model :
-    stopSeq = ["ctrlFuncRunning.Set", "stopFlag.Set", "cancelCtx", "startCtrlFn", "<-m.stopComplete",
+    stopSeq = ["ctrlFuncRunning.Set", "stopFlag.Set", "cancelCtx", "startCtrlFn", "<-m.stopComplete", "<-stopFnError",
                "<-time.After(moduleStopTimeout)", "time.After(moduleStopTimeout)", "<-stopFnError",
                "status=StatusOffline", "reports<-"] ∧
-    checkSeq = ["stopFlag.IsSet", "ctrlFuncRunning.IsNotSet", "workerCnt==0", "taskCnt==0", "microTaskCnt==0",
-                "stopCompleted.SetToIf(false,true)", "Lock", "defer", "Unlock", "close(stopComplete)"] ∧
+    checkSeq = ["stopFlag.IsSet", "Lock", "defer", "Unlock", "stopFlag.IsSet", "ctrlFuncRunning.IsNotSet",
+                "workerCnt==0", "taskCnt==0", "microTaskCnt==0", "stopCompleted.SetToIf(false,true)",
+                "close(stopComplete)"] ∧
     revDepWaitCond = "revDep.Status() > StatusOffline" ∧ onlineSoonResult = "!m.stopFlag.IsSet()" ∧
     statusDead < statusOffline ∧ statusPreparing < statusOffline ∧ statusOffline < statusStopping ∧
     statusStopping < statusStarting ∧ statusStarting < statusOnline := by
@@ -51,11 +53,11 @@ theorem cancel_before_stopfn {s : St} (h : Reach s) :
     (repeat' split at hs) <;> cases hs <;> grind
   · intro hst; simp only [St.stopped] at hst; grind
 
-/-- Safety (per stop cycle): a module that its stopper reported `Offline`, in a cycle that began without stragglers
-    and whose wait did not time out, has: stop routine returned (and its goroutine finished), every item that was
-    counted when the stop flag was set has decremented (= its function returned), completion was signalled. -/
-theorem offline_only_after_work_returned_partial {s : St} (h : Reach s) (hstop : s.stopped)
-    (hclean : s.g = 1) (hto : s.tmo = 0) :
+/-- Safety, full strength: a module that its stopper reported `Offline` in a cycle whose wait did not time out has:
+    stop routine returned (and its goroutine cleared the control flag), every item that was counted when the stop
+    flag was set has decremented (= its function returned), completion was signalled on the channel.
+    For all reachable states: any number of cycles, items, finishing goroutines, any interleaving. -/
+theorem offline_only_after_work_returned {s : St} (h : Reach s) (hstop : s.stopped) (hto : s.tmo = 0) :
     s.status = statusOffline ∧ s.fnpc = 3 ∧ s.aW = 0 ∧ s.aT = 0 ∧ s.aM = 0 ∧ s.closed = 1 := by
   simp only [St.stopped] at hstop
   have h6 : 7 ≤ s.spc := by omega
@@ -76,82 +78,69 @@ theorem status_tracks_stopper {s : St} (h : Reach s) :
   simp only [St.stopped]
   grind
 
-/-- run used by the refutations: one worker, stop, restart, one worker, stop;
-    a finisher of cycle 1 stalls between its last read and the CAS and wins the CAS of cycle 2. -/
+/-- former counterexample 1 (pinned tree): a finisher of cycle 1 stalls between its last read and the CAS and wins
+    the CAS of cycle 2. In the repaired protocol the stalled check holds the module lock, so the first cycle's
+    `Offline` write (and every later `stop()`) has to wait for it: the schedule is not a run. -/
 def staleCheckerRun : List Act :=
   [.startBegin, .online, .inc .w, .stopBegin, .sCtrl, .sFlag, .sCancel, .ctrlUnsetNil, .dec .w true,
-   .cFlag true, .cFlag true, .cCtrl true, .cCtrl true, .cW true, .cW true, .cT true, .cT true, .cM true, .cM true,
-   .cCas true, .cClose, .sWake, .sOffline, .sReport,
-   .startBegin, .online, .inc .w, .stopBegin, .sCtrl, .sFlag, .sCancel, .ctrlUnsetNil,
-   .cCas true, .cClose, .sWake, .sOffline]
+   .cFast true, .cLock, .cFlag true, .cCtrl true, .cW true, .cT true, .cM true,   -- parked before the CAS
+   .cFast true]                                                                  -- the other finisher …
 
-/-- run used by the refutations: the start routine's goroutine performs its deferred `ctrlFuncRunning.UnSet`
-    only after the stopper's manual `Set`, and its `checkIfStopComplete` completes the stop before the stop
-    routine has even started. -/
-def lateStartUnsetRun : List Act :=
-  [.startBegin, .ctrlSet, .fnExit, .online, .stopBegin, .sCtrl, .sFlag, .ctrlUnset,
-   .cFlag true, .cCtrl true, .cW true, .cT true, .cM true, .sCancel, .ctrlSet, .cCas true, .cClose,
-   .sWake, .sOffline]
+example : (run init staleCheckerRun).isSome = true := by decide
+example : (run init (staleCheckerRun ++ [.cLock])).isSome = false := by decide     -- … cannot enter the check
+example : (run init (staleCheckerRun ++ [.sTimeout, .sOffline])).isSome = false := by decide  -- nor can Offline be written
 
-/-- The full-strength safety statement (no straggler hypothesis) is false on the code as written:
-    a checker left over from stop cycle 1 closes the completion channel of cycle 2 while a worker counted at
-    flag time is still running, and the module is reported offline without any timeout. -/
-theorem offline_only_after_work_returned_REFUTED_stale_checker :
-    ¬ (∀ s : St, Reach s → s.stopped → s.tmo = 0 → s.fnpc = 3 ∧ s.aW = 0 ∧ s.aT = 0 ∧ s.aM = 0) := by
-  intro hall
-  have hr : run init staleCheckerRun =
-      some { init with status := statusOffline, flag := 1, ctx := 1, completed := 1, closed := 1, aW := 1, k0 := 1,
-                       spc := 7, fnpc := 3, g := 0, everStale := 1 } := by decide
-  have := hall _ (reach_run Reach.init hr) (by simp [St.stopped]) (by decide)
-  simp at this
+/-- former counterexample 2 (pinned tree): the start routine's goroutine performs its deferred `UnSet` only after
+    the stopper's manual `Set`. In the repaired code the module goes `Online` only after that goroutine has cleared
+    the flag and finished its check, so the schedule is not a run. -/
+def lateStartUnsetRun : List Act := [.startBegin, .ctrlSet, .fnExit, .online]
 
-/-- Second refutation: reported offline while the stop routine is still running (no timeout). -/
-theorem offline_only_after_work_returned_REFUTED_late_start_unset :
-    ¬ (∀ s : St, Reach s → s.stopped → s.tmo = 0 → s.fnpc = 3 ∧ s.aW = 0 ∧ s.aT = 0 ∧ s.aM = 0) := by
-  intro hall
-  have hr : run init lateStartUnsetRun =
-      some { init with status := statusOffline, flag := 1, ctrl := 1, ctx := 1, completed := 1, closed := 1,
-                       spc := 7, fnpc := 1, g := 0, everStale := 1 } := by decide
-  have := hall _ (reach_run Reach.init hr) (by simp [St.stopped]) (by decide)
-  simp at this
+example : (run init lateStartUnsetRun).isSome = false := by decide
+example : (run init [.startBegin, .ctrlSet, .fnExit, .ctrlUnset, .online]).isSome = true := by decide
 
-/-- The completion channel is closed at most once per cycle (no double-close panic) in every run in which no stop
-    began with a straggler in flight. -/
-theorem single_close {s : St} (h : Reach s) (hne : s.everStale = 0) :
-    s.dbl = 0 ∧ s.k6 + s.closed ≤ 1 := by
+/-- The completion channel is closed at most once per cycle: no double-close panic, in every reachable state. -/
+theorem single_close {s : St} (h : Reach s) : s.dbl = 0 ∧ s.k7 + s.closed ≤ 1 := by
   have hi := inv_reach h
   unfold StopProto.Inv at hi
   grind
 
-/-- "quiet": clean cycle, stopper waiting or later, stop routine's goroutine done, all three counters zero,
+/-- "quiet": stopper waiting or later, stop routine's goroutine done, all three counters zero,
     completion not yet signalled on the channel. -/
 def Quiet (s : St) : Prop :=
-  s.g = 1 ∧ 5 ≤ s.spc ∧ s.fnpc = 3 ∧ s.aW + s.bW = 0 ∧ s.aT + s.bT = 0 ∧ s.aM + s.bM = 0 ∧ s.closed = 0
+  5 ≤ s.spc ∧ s.fnpc = 3 ∧ s.aW + s.bW = 0 ∧ s.aT + s.bT = 0 ∧ s.aM + s.bM = 0 ∧ s.closed = 0
 
 /-- No lost completion: in a quiet state some goroutine still has a `checkIfStopComplete` step pending, and that
-    step is enabled (the protocol cannot be stuck before the close). -/
+    step is enabled (the protocol cannot be stuck before the close; the lock is only ever held by a check that can
+    move). -/
 theorem no_lost_completion {s : St} (h : Reach s) (hq : Quiet s) :
     ∃ a : Act, a.isCheck = true ∧ (step s a).isSome = true := by
   have hi := inv_reach h
   unfold StopProto.Inv at hi
   unfold Quiet at hq
+  by_cases hd : 0 < s.kd
+  · exact ⟨.cUnlock, rfl, by simp [step, hd]⟩
+  by_cases h7 : 0 < s.k7
+  · exact ⟨.cClose, rfl, by simp [step, h7]; split <;> rfl⟩
   by_cases h6 : 0 < s.k6
-  · exact ⟨.cClose, rfl, by simp [step, h6]; split <;> rfl⟩
-  by_cases h5 : 0 < s.k5
   · have hc : s.completed = 0 := by grind
-    exact ⟨.cCas true, rfl, by simp [step, h5, hc]⟩
+    exact ⟨.cCas true, rfl, by simp [step, h6, hc]⟩
+  by_cases h5 : 0 < s.k5
+  · exact ⟨.cM true, rfl, by simp [step, h5]; grind⟩
   by_cases h4 : 0 < s.k4
-  · exact ⟨.cM true, rfl, by simp [step, h4]; grind⟩
+  · exact ⟨.cT true, rfl, by simp [step, h4]; grind⟩
   by_cases h3 : 0 < s.k3
-  · exact ⟨.cT true, rfl, by simp [step, h3]; grind⟩
+  · exact ⟨.cW true, rfl, by simp [step, h3]; grind⟩
   by_cases h2 : 0 < s.k2
-  · exact ⟨.cW true, rfl, by simp [step, h2]; grind⟩
-  by_cases h1 : 0 < s.k1
   · have hc : s.ctrl = 0 := by grind
-    exact ⟨.cCtrl true, rfl, by simp [step, h1, hc]⟩
-  have h0 : 0 < s.k0 := by grind
+    exact ⟨.cCtrl true, rfl, by simp [step, h2, hc]⟩
   have hf : s.flag = 1 := by grind
-  exact ⟨.cFlag true, rfl, by simp [step, h0, hf]⟩
+  by_cases h1 : 0 < s.k1
+  · exact ⟨.cFlag true, rfl, by simp [step, h1, hf]⟩
+  have hlk : s.lk = 0 := by grind
+  by_cases hkf : 0 < s.kf
+  · exact ⟨.cLock, rfl, by simp [step, hkf, hlk]⟩
+  have h0 : 0 < s.k0 := by grind
+  exact ⟨.cFast true, rfl, by simp [step, h0, hf]⟩
 
 /-- A check step taken in a quiet state never gives up: afterwards the channel is closed or the state is still quiet
     (no pending check aborts on a stale or inconsistent read). -/
@@ -161,6 +150,7 @@ theorem quiet_preserved {s s' : St} {a : Act} (h : Reach s) (hq : Quiet s) (ha :
   unfold StopProto.Inv at hi
   unfold Quiet at hq ⊢
   cases a with
+  | cFast o => cases o <;> simp only [step] at hs <;> (repeat' split at hs) <;> cases hs <;> (try dsimp only) <;> grind
   | cFlag o => cases o <;> simp only [step] at hs <;> (repeat' split at hs) <;> cases hs <;> (try dsimp only) <;> grind
   | cCtrl o => cases o <;> simp only [step] at hs <;> (repeat' split at hs) <;> cases hs <;> (try dsimp only) <;> grind
   | cW o => cases o <;> simp only [step] at hs <;> (repeat' split at hs) <;> cases hs <;> (try dsimp only) <;> grind
@@ -168,10 +158,12 @@ theorem quiet_preserved {s s' : St} {a : Act} (h : Reach s) (hq : Quiet s) (ha :
   | cM o => cases o <;> simp only [step] at hs <;> (repeat' split at hs) <;> cases hs <;> (try dsimp only) <;> grind
   | cCas o => cases o <;> simp only [step] at hs <;> (repeat' split at hs) <;> cases hs <;> (try dsimp only) <;> grind
   | cClose => simp only [step] at hs; (repeat' split at hs) <;> cases hs <;> (try dsimp only) <;> grind
+  | cLock => simp only [step] at hs; (repeat' split at hs) <;> cases hs <;> (try dsimp only) <;> grind
+  | cUnlock => simp only [step] at hs; (repeat' split at hs) <;> cases hs <;> (try dsimp only) <;> grind
   | _ => simp [Act.isCheck] at ha
 
 /-- Promptness: from a quiet state, every sequence of check steps (the finishing goroutines running, no new work,
-    no timeout) has length at most `mu s` (7 per pending check), and ends with the channel closed or in a quiet state
+    no timeout) has length at most `mu s` (10 per pending check), and ends with the channel closed or in a quiet state
     where a further check step is enabled. Hence completion is signalled after finitely many steps of the finishing
     goroutines themselves — nobody waits for the stop timeout. -/
 theorem prompt_completion {s : St} (h : Reach s) (hq : Quiet s) :
@@ -214,6 +206,9 @@ theorem prompt_completion {s : St} (h : Reach s) (hq : Quiet s) :
                 | cT o => cases o <;> simp only [step] at ht1 <;> (repeat' split at ht1) <;> cases ht1 <;> exact hc
                 | cM o => cases o <;> simp only [step] at ht1 <;> (repeat' split at ht1) <;> cases ht1 <;> exact hc
                 | cCas o => cases o <;> simp only [step] at ht1 <;> (repeat' split at ht1) <;> cases ht1 <;> exact hc
+                | cFast o => cases o <;> simp only [step] at ht1 <;> (repeat' split at ht1) <;> cases ht1 <;> exact hc
+                | cLock => simp only [step] at ht1; (repeat' split at ht1) <;> cases ht1 <;> exact hc
+                | cUnlock => simp only [step] at ht1; (repeat' split at ht1) <;> cases ht1 <;> exact hc
                 | cClose => simp only [step] at ht1; (repeat' split at ht1) <;> cases ht1 <;> first | exact hc | rfl
                 | _ => simp [Act.isCheck] at hb1
               have := ihb t1 t' hc1 (fun b hb' => hb b (by simp [hb'])) hr
@@ -249,17 +244,17 @@ theorem stopped_module_runs_no_new_task_or_event {s s' : St} {o : Bool} (h : Rea
   (repeat' split at hs) <;> cases hs <;> grind
 
 /-- Dependencies wait: the manager begins stopping module `d` only while every module `r` that depends on `d`
-    is at most `Offline`; and if such an `r` was stopped in a clean cycle without timeout, its stop routine has
+    is at most `Offline`; and if such an `r` was stopped without timeout, its stop routine has
     returned and all its work counted at flag time has returned. -/
 theorem dependencies_wait {n : Nat} {deps : List (List Nat)} {S S' : Sys} {d : Nat}
     (h : SReach n deps S) (hs : sstep S (.mod d .stopBegin) = some S') :
     ∀ (r : Nat) (sr : St), S.mods[r]? = some sr → d ∈ S.depsOf r →
       sr.status ≤ statusOffline ∧
-      (sr.stopped → sr.g = 1 → sr.tmo = 0 → sr.fnpc = 3 ∧ sr.aW = 0 ∧ sr.aT = 0 ∧ sr.aM = 0) := by
+      (sr.stopped → sr.tmo = 0 → sr.fnpc = 3 ∧ sr.aW = 0 ∧ sr.aT = 0 ∧ sr.aM = 0) := by
   intro r sr hr hd
   have hinv := sinv_reach h
   have hreach := hinv.2.1 r sr hr
-  refine ⟨?_, fun hst hg ht => ?_⟩
+  refine ⟨?_, fun hst ht => ?_⟩
   · simp only [sstep] at hs
     split at hs
     · cases hs
@@ -277,18 +272,17 @@ theorem dependencies_wait {n : Nat} {deps : List (List Nat)} {S S' : Sys} {d : N
         simp [hst] at this
         exact this.resolve_left (fun hn => hn hd)
       · cases hs
-  · have := offline_only_after_work_returned_partial hreach hst hg ht
+  · have := offline_only_after_work_returned hreach hst ht
     exact ⟨this.2.1, this.2.2.1, this.2.2.2.1, this.2.2.2.2.1⟩
 
 /-- Shutdown waits: `stopModules` (hence `Shutdown`) returns only when every stopper it launched has reported:
-    no module is between `stop()` and its report, so every module stopped in this pass is `Offline`, and (clean cycle,
-    no timeout) its stop routine has returned and all its work counted at flag time has returned. -/
+    no module is between `stop()` and its report, so every module stopped in this pass is `Offline`, and (no timeout) its stop routine has returned and all its work counted at flag time has returned. -/
 theorem shutdown_waits {n : Nat} {deps : List (List Nat)} {S S' : Sys}
     (h : SReach n deps S) (hm : S.mode = 1) (hs : sstep S .passEnd = some S') :
     ∀ (i : Nat) (s : St), S.mods[i]? = some s →
       (s.spc = 0 ∨ s.spc = 8) ∧
       (s.spc = 8 → s.status = statusOffline ∧
-        (s.g = 1 → s.tmo = 0 → s.fnpc = 3 ∧ s.aW = 0 ∧ s.aT = 0 ∧ s.aM = 0 ∧ s.closed = 1)) := by
+        (s.tmo = 0 → s.fnpc = 3 ∧ s.aW = 0 ∧ s.aT = 0 ∧ s.aM = 0 ∧ s.closed = 1)) := by
   intro i s hi
   have hinv := sinv_reach h
   have hreach := hinv.2.1 i s hi
@@ -307,8 +301,8 @@ theorem shutdown_waits {n : Nat} {deps : List (List Nat)} {S S' : Sys}
       · have := hI.1; omega
     refine ⟨hspc, fun h8 => ?_⟩
     have hst : s.stopped := Or.inr h8
-    refine ⟨(status_tracks_stopper hreach).1 hst, fun hg ht => ?_⟩
-    have := offline_only_after_work_returned_partial hreach hst hg ht
+    refine ⟨(status_tracks_stopper hreach).1 hst, fun ht => ?_⟩
+    have := offline_only_after_work_returned hreach hst ht
     exact ⟨this.2.1, this.2.2.1, this.2.2.2.1, this.2.2.2.2.1, this.2.2.2.2.2⟩
   · split at hs
     · omega
@@ -316,34 +310,38 @@ theorem shutdown_waits {n : Nat} {deps : List (List Nat)} {S S' : Sys}
 
 /-! ## non-vacuity -/
 
-/-- a clean cycle: two workers, a task and a microtask running, stop routine present; everything returns, the last
-    finisher's check completes the stop; the module is offline with `g = 1`, `tmo = 0`. -/
+/-- one complete check by a goroutine that finds everything done -/
+def chk : List Act := [.cFast true, .cLock, .cFlag true, .cCtrl true, .cW true, .cT true, .cM true]
+
+/-- two workers, a task and a microtask running, start and stop routine present; a microtask arrives during the
+    stop; everything returns; the last finisher's check completes the stop; late work after `Offline`. -/
 def cleanRun : List Act :=
-  [.startBegin, .ctrlSet, .fnEnter false, .inc .w, .workEnter false, .fnExit, .ctrlUnset, .online, .cFlag false,
+  [.startBegin, .ctrlSet, .fnEnter false, .inc .w, .workEnter false, .fnExit, .ctrlUnset, .cFast false, .online,
    .inc .w, .inc .t, .inc .m, .workEnter false, .gate true,
-   .stopBegin, .sCtrl, .dec .w true, .cFlag false, .sFlag, .gate false, .sCancel, .ctrlSet, .fnEnter true,
-   .inc .m, .workEnter true, .dec .m false, .cFlag true, .cCtrl false,
-   .dec .t true, .dec .m true, .fnExit, .ctrlUnset, .cFlag true, .cFlag true, .cFlag true, .cCtrl true, .cW false,
-   .dec .w true, .cCtrl true, .cCtrl true, .cFlag true, .cCtrl true, .cW true, .cW true, .cW true, .cT true, .cT true,
-   .cT true, .cM true, .cM true, .cM true, .cCas true, .cCas false, .cCas false, .cClose, .sWake, .sOffline, .sReport,
-   .inc .w, .workEnter true, .gate false, .dec .w false, .cFlag true, .cCtrl true, .cW true, .cT true, .cM true,
-   .cCas false]
+   .stopBegin, .sCtrl, .dec .w true, .cFast false, .sFlag, .gate false, .sCancel, .ctrlSet, .fnEnter true,
+   .inc .m, .workEnter true, .dec .m false, .cFast true, .cLock, .cFlag true, .cCtrl false, .cUnlock,
+   .dec .t true, .dec .m true, .fnExit, .ctrlUnset,
+   .cFast true, .cFast true, .cFast true, .cLock, .cFlag true, .cCtrl true, .cW false, .cUnlock,
+   .dec .w true] ++ chk ++ [.cCas true, .cClose, .sWake, .cUnlock, .sOffline, .sReport,
+   .cLock, .cFlag true, .cCtrl true, .cW true, .cT true, .cM true, .cCas false, .cUnlock,
+   .inc .w, .workEnter true, .gate false, .dec .w false] ++ chk ++ [.cCas false, .cUnlock]
 
 def cleanEnd : St := (run init cleanRun).getD init
 
-example : run init cleanRun = some cleanEnd ∧ (cleanEnd.spc = 7 ∨ cleanEnd.spc = 8) ∧ cleanEnd.g = 1 ∧
-    cleanEnd.tmo = 0 ∧ cleanEnd.everStale = 0 ∧ cleanEnd.closed = 1 := by decide
+example : run init cleanRun = some cleanEnd ∧ (cleanEnd.spc = 7 ∨ cleanEnd.spc = 8) ∧
+    cleanEnd.tmo = 0 ∧ cleanEnd.closed = 1 ∧ cleanEnd.fnpc = 3 := by decide
 
 /-- a quiet state with pending checks exists (hypotheses of `no_lost_completion` / `prompt_completion`). -/
-def quietMid : St := (run init (cleanRun.take 43)).getD init
+def quietMid : St := (run init (cleanRun.take 44)).getD init
 
-example : run init (cleanRun.take 43) = some quietMid ∧ quietMid.g = 1 ∧ 5 ≤ quietMid.spc ∧ quietMid.fnpc = 3 ∧
+example : run init (cleanRun.take 44) = some quietMid ∧ 5 ≤ quietMid.spc ∧ quietMid.fnpc = 3 ∧
     quietMid.aW + quietMid.bW = 0 ∧ quietMid.aT + quietMid.bT = 0 ∧ quietMid.aM + quietMid.bM = 0 ∧
     quietMid.closed = 0 ∧ 0 < mu quietMid := by decide
 
 /-- a timeout run is accepted by the model (the proviso is a hypothesis, not a restriction of the model). -/
 example : (run init [.startBegin, .online, .inc .w, .stopBegin, .sCtrl, .sFlag, .sCancel, .ctrlUnsetNil,
-    .cFlag true, .cCtrl true, .cW false, .sTimeout, .sOffline, .sReport]).isSome = true := by decide
+    .cFast true, .cLock, .cFlag true, .cCtrl true, .cW false, .cUnlock, .sTimeout, .sOffline, .sReport]).isSome = true := by
+  decide
 
 /-- three modules, 2 depends on 1 depends on 0: a shutdown pass in dependency order is a run of the system,
     and stopping module 0 first is rejected. -/
@@ -351,9 +349,10 @@ def chain3 : List (List Nat) := [[], [0], [1]]
 
 def upActs (i : Nat) : List SAct := [.mod i .startBegin, .mod i .online]
 def downActs (i : Nat) : List SAct :=
-  [.mod i .stopBegin, .mod i .sCtrl, .mod i .sFlag, .mod i .sCancel, .mod i .ctrlUnsetNil, .mod i (.cFlag true),
+  [.mod i .stopBegin, .mod i .sCtrl, .mod i .sFlag, .mod i .sCancel, .mod i .ctrlUnsetNil, .mod i (.cFast true),
+   .mod i .cLock, .mod i (.cFlag true),
    .mod i (.cCtrl true), .mod i (.cW true), .mod i (.cT true), .mod i (.cM true), .mod i (.cCas true), .mod i .cClose,
-   .mod i .sWake, .mod i .sOffline, .mod i .sReport]
+   .mod i .cUnlock, .mod i .sWake, .mod i .sOffline, .mod i .sReport]
 
 example : (srun (Sys.init 3 chain3)
     ([.passBegin false] ++ upActs 0 ++ upActs 1 ++ upActs 2 ++ [.passEnd, .passBegin true] ++
